@@ -12,12 +12,18 @@ __CPROVER_ensures(g_wr_calls == __CPROVER_old(g_wr_calls) + 1 && C5_CNT(g_cpy, a
 int cp_vbnn_ver(const ec_t r, const bn_t z, const bn_t h, const uint8_t *id, size_t id_len, const uint8_t *msg, int msg_len, const ec_t mpk)
 __CPROVER_requires(__CPROVER_is_fresh(r, sizeof(ep_st)) && __CPROVER_is_fresh(z, sizeof(bn_st)) && __CPROVER_is_fresh(h, sizeof(bn_st)) && __CPROVER_is_fresh(mpk, sizeof(ep_st)))
 __CPROVER_requires(id_len <= 8 && msg_len >= 0 && msg_len <= 8 && __CPROVER_is_fresh(id, id_len) && __CPROVER_is_fresh(msg, msg_len) && g_szr >= 1 && g_szr <= 33 && g_szo >= 1 && g_szo <= 33)
+#ifdef C05X_WITHOUT_SIGVALID
+/* R is never validated, and the scratch buffer is sized as id_len + msg_len + 2 * |R| although it receives R and the recomputed point Z: for R = identity
+   (1 byte) and Z finite (33 bytes) the write of Z overruns the buffer (findings/c05y_vbnn_identity_r_overflow.c; the strict unit reports it as the failed
+   preconditions of ep_write_bin / md_map and the failed frame).  The reading "only the guards the code has" excludes that case: no point is longer than R */
+__CPROVER_requires(g_szo <= g_szr)
+#endif
 __CPROVER_requires(C5_BIND(r, z, h, mpk, NULL, NULL, NULL, NULL, NULL, NULL, NULL, NULL) && C5_INIT)
 VC_ASSIGNS(C5_GHOST, __CPROVER_alloca_object)
 __CPROVER_ensures(C5_BOOL(__CPROVER_return_value))
 /* the decision: h compared equal, once, with the second hash value reduced modulo the group order (this also confines h to 0 <= h < n: the
    comparison is of signed values against a reduced one); two hashes, both read over the full digest and reduced modulo the order */
-__CPROVER_ensures(C5_ACC ==> (g_cmp_calls == 1 && g_cmp == RLC_EQ && (g_cmp_a == C5_P(h) && g_cmp_b == g_mod_c || g_cmp_b == C5_P(h) && g_cmp_a == g_mod_c) && g_mod_m == g_ord_n && g_ord_n != NULL && \
+__CPROVER_ensures(C5_ACC ==> (g_cmp_calls == 1 && g_cmp == RLC_EQ && (g_cmp_a == C5_P(h) && g_cmp_b == g_mod_c || g_cmp_b == C5_P(h) && g_cmp_a == g_mod_c) && g_mod_m == g_ord_n && g_ord_n != 0 && \
 	g_mod_a == g_read_a && g_md_calls == 2 && g_read_calls == 2 && g_mod_calls == 2 && g_read_len == (size_t)RLC_MD_LEN && g_read_bin == g_md_out && \
 	g_md_len == id_len + (size_t)msg_len + g_szr + g_szo))
 /* data flow: [z]P once; P0 and h each enter one multiplication; R is added; Z = [z]P - [h](...) normalised; R serialised three times (sizes aside), Z once */
